@@ -29,7 +29,8 @@ def dt_from_text(text, rng, kind=None, over_precise=False, foreign_meta=False):
         p, c = rng.choice([("any", "exact"), ("millisecond", "min"), ("millisecond", "exact"), ("second", "min"), ("second", "exact")])
         import pytz
         # (library-made timestamps carry pytz.utc; some carry datetime.timezone.utc when the caller supplied it)
-        return U.STIXdatetime(naive.replace(tzinfo=rng.choice([pytz.utc, pytz.utc, dt.timezone.utc])), precision=U.Precision[p.upper()],
+        # (... or none at all: a naive value means UTC, whatever class carries it)
+        return U.STIXdatetime(naive.replace(tzinfo=rng.choice([pytz.utc, pytz.utc, dt.timezone.utc, None])), precision=U.Precision[p.upper()],
                               precision_constraint=U.PrecisionConstraint[c.upper()])
     r = rng.random()
     if r < 0.3:
